@@ -120,7 +120,7 @@ if __name__ == "__main__":
         "addresses enter the model as identities and class bits assigned by the harness by construction (thin-waist split, loopback/NAT64/relay class, IP family, tcp/udp) and cross-checked against manet.IsIPLoopback / IsNAT64IPv4ConvertedIPv6Addr / the p2p-circuit scan; go-multiaddr itself is trusted",
         "observer group: remote IP sent as IPv4 number or eight IPv6 groups parsed by net/netip from the harness's own strings (not through getObserver); an IPv4-mapped IPv6 remote is the IPv4 address (what net.IP.To4 does)",
         "a connection's local and remote multiaddr never change; a Disconnected notification implies IsClosed() is true; 'the connection closes' is the Disconnected notification (removeConn)",
-        "a report that does not count (filtered class, closed connection) is ignored altogether: it does not withdraw the connection's previous report (the code's behaviour; the property text does not say otherwise)",
+        "reading of 'a connection's report is withdrawn when it changes': a re-report whose content never counts (loopback / NAT64 / relayed / no thin waist / inconsistent transport / not at a listen address) still replaces the connection's previous report, which is withdrawn; /repo did not do this before 09ed564 (fix: observedaddrs: ...), the model follows the repaired code; a report with countable content on a closed connection or from a remote without IP is ignored; a nil observed address is no report (not generated)",
         "listenAddrs() is constant during a case and returns a fresh slice (as Swarm.ListenAddresses does); each Manager method is one critical section (mutex not modelled); the worker channel, eventbus and NAT-type emitter are not modelled",
         "slices.SortFunc is modelled as insertion sort with the same total order (ties by Multiaddr.Compare = order of the ids the harness assigns by sorting with Compare)",
     ]
